@@ -133,6 +133,7 @@ func runBatch(c *check, replay string) int {
 				fmt.Printf("KNOWN-FINDING: property=%s %s\n", c.id, k.What)
 				continue
 			}
+			violationPrinted = true
 			fmt.Printf("VIOLATION property=%s replay=%s\n", c.id, rp)
 			fmt.Println(indent(lastLines(out, 14)))
 			code = 1
@@ -193,6 +194,7 @@ func runBatch(c *check, replay string) int {
 				dst := filepath.Join(verifDir, "replays", "found", fmt.Sprintf("%s-race-%s.txt", c.id, ev.Hash(raceSig(r.out))))
 				os.MkdirAll(filepath.Dir(dst), 0o755)
 				os.WriteFile(dst, []byte(r.out), 0o644)
+				violationPrinted = true
 				fmt.Printf("VIOLATION property=%s replay=%s\n%s\n", c.id, dst, indent(raceExcerpt(r.out)))
 				code = 1
 				nviol++
@@ -239,6 +241,7 @@ func runBatch(c *check, replay string) int {
 					msg = rf.Msg
 				}
 			}
+			violationPrinted = true
 			fmt.Printf("VIOLATION property=%s replay=%s\n", c.id, dst)
 			fmt.Println(indent(msg))
 			code = 1
